@@ -11,9 +11,9 @@ mkdir -p $out
 wt=/tmp/wt_refac_$name; git -C $REPO worktree remove --force $wt >/dev/null 2>&1
 git -C $REPO worktree add -q -f --detach $wt HEAD || exit 2
 d0=""; d1=""
-if [ -f $out/equiv.py ]; then t=$(mktemp -d); d0=$(cd $t && PYTHONPATH=$wt timeout 900 /venv/bin/python $out/equiv.py 2>/dev/null | grep -i "^digest" | tail -1 | tr "[:upper:]" "[:lower:]"); rm -rf $t; fi
+if [ -f $out/equiv.py ]; then t=$(mktemp -d); d0=$(cd $t && PYTHONPATH=$wt timeout 900 /venv/bin/python $out/equiv.py 2>/dev/null | grep -oiE "[0-9a-f]{64}" | tail -1 | tr "[:upper:]" "[:lower:]"); rm -rf $t; fi
 git -C $wt apply $out/patch.diff || { echo "$name: patch does not apply"; git -C $REPO worktree remove --force $wt; exit 2; }
-if [ -f $out/equiv.py ]; then t=$(mktemp -d); d1=$(cd $t && PYTHONPATH=$wt timeout 900 /venv/bin/python $out/equiv.py 2>/dev/null | grep -i "^digest" | tail -1 | tr "[:upper:]" "[:lower:]"); rm -rf $t; fi
+if [ -f $out/equiv.py ]; then t=$(mktemp -d); d1=$(cd $t && PYTHONPATH=$wt timeout 900 /venv/bin/python $out/equiv.py 2>/dev/null | grep -oiE "[0-9a-f]{64}" | tail -1 | tr "[:upper:]" "[:lower:]"); rm -rf $t; fi
 ( cd $wt && env -u SKEPTICOIN_VERIF flock /tmp/skepticoin_pytest.lock timeout 900 /venv/bin/python -m pytest -q -p no:cacheprovider --timeout=900 > $out/tests.log 2>&1 ); tests=$?
 res=""
 for pid in $(python3 -c "import json;print(' '.join(json.load(open('$out/pids.json'))['properties']))"); do
